@@ -11,8 +11,8 @@ func VP_C15_crash() {
 	K, S := 1+vp.Choice(2), 5
 	vpCoordLimit = 2
 	if vp.Tier() == 1 {
-		K, S = 1+vp.Choice(2), 6 // (three live chunks, and seven sectors, did not finish inside the thorough budget)
-		vpCoordLimit = 3
+		K, S = 1+vp.Choice(2), 5 // (three live chunks or more sectors did not finish inside the thorough budget; the thorough tier adds tear points, a WriterAt file and a third chunk length)
+		vpCoordLimit = 2
 	}
 	chunks := vpArbitraryState(K, S)
 	img := vpBuild(chunks, S)
@@ -61,7 +61,7 @@ func VP_C15_crash() {
 	if c < len(mem.log) {
 		w := mem.log[c]
 		var t int
-		nb := 1 + 7*vp.Tier() // 512-byte boundaries tried (quick: the first one)
+		nb := 1 + 3*vp.Tier() // 512-byte boundaries tried (quick: the first one; thorough: four)
 		switch k := vp.Choice(2 + nb); {
 		case k == 0:
 			t = 0
